@@ -1,7 +1,9 @@
 #!/bin/bash
 # mut.sh <name> : apply mutation <name> to a fresh copy of operator_impl.cc in the scratch tree and run the part
+# (names: reshape concat relu tanh negative restructure harmless; remove $S and /verif/_work/build-*-<md5 of $S> when done)
 S=/var/tmp/pv-scratch.bw
-cp /var/tmp/bw/operator_impl.cc.orig $S/primitiv/core/operator_impl.cc
+[ -d $S ] || rsync -a --exclude _build --exclude .git /repo/ $S/
+cp /repo/primitiv/core/operator_impl.cc $S/primitiv/core/operator_impl.cc
 python3 - "$1" <<'PY'
 import sys
 p='/var/tmp/pv-scratch.bw/primitiv/core/operator_impl.cc'
@@ -27,5 +29,5 @@ elif m=="restructure": rep("BACKWARD(Sum) {\n  UNUSED(y);\n  *gx[0] += functions
 else: raise SystemExit("unknown mutation")
 open(p,'w').write(s)
 PY
-diff /var/tmp/bw/operator_impl.cc.orig $S/primitiv/core/operator_impl.cc
+diff /repo/primitiv/core/operator_impl.cc $S/primitiv/core/operator_impl.cc
 cd /verif && PV_REPO=$S python3 engines/bwtables.py quick 2>&1 | grep -A1 "VIOLATION\|\"ok\"\|proof_ok\|found_input\|\"seconds\"" | cut -c1-700
